@@ -426,7 +426,7 @@ def c11(c):
 
 
 C12_THEOREMS = ["Ctl.afterCb_passive", "Ctl.hFinish_passive", "Ctl.hAccepted_passive", "Ctl.hIter_passive", "Ctl.hLoop_passive",
-                "SolOutM.step_flag", "c12_dense_flag_passive", "c12_dense_flag_passive_dopri5", "Ctl.hIter_erase", "Ctl.dopri5_densePassive"]
+                "SolOutM.step_flag", "c12_dense_flag_passive", "c12_dense_flag_passive_dopri5", "c12_dense_flag_passive_rk23", "c12_dense_flag_passive_rk4", "Ctl.hIter_erase", "Ctl.dopri5_densePassive"]
 
 
 def c12(c):
@@ -484,7 +484,8 @@ def c18(c):
 
 
 C19_THEOREMS = ["Ctl.hSolve_protocol", "Ctl.rk23Solve_inv", "Ctl.rk4Solve_inv", "Ctl.afterCb_interrupt", "Ctl.afterCb_modified",
-                "Ctl.afterCb_cont", "Ctl.hFinish_interrupt", "Ctl.afterCb_go_meter"]
+                "Ctl.afterCb_cont", "Ctl.hFinish_interrupt", "Ctl.afterCb_go_meter", "c19_scaled_continuation_dopri5", "c19_scaled_continuation_dop853",
+                "c19_scaled_continuation_rk23", "c19_scaled_continuation_rk4", "Ctl.afterCb_scale"]
 
 
 def c19(c):
